@@ -3056,9 +3056,11 @@ def emit(ast: Program) -> str:
                     globals_.append(line)
 
     function_sections: List[str] = []
+    prototypes: List[str] = []
     for fn in getattr(ast, "functions", []):
         params_src = ", ".join(f"{ptype} {name}" for name, ptype in fn.params)
         header = f"{fn.return_type} {fn.name}({params_src}) {{\n"
+        prototypes.append(f"{fn.return_type} {fn.name}({params_src});")
         body_lines = _emit_block(
             getattr(fn, "body", []),
             dict(led_pin),
@@ -3100,6 +3102,7 @@ def emit(ast: Program) -> str:
             continue
         trig_expr = _emit_expr(decl.trig)
         echo_expr = _emit_expr(decl.echo)
+        prototypes.append(f"float __redu_ultrasonic_measure_{name}();")
         helper_lines = [
             f"float __redu_ultrasonic_measure_{name}() {{",
             f"  static unsigned long __redu_last_trigger_ms_{name} = 0UL;",
@@ -3155,6 +3158,8 @@ def emit(ast: Program) -> str:
     if globals_:
         parts.append("\n".join(globals_) + "\n\n")
     if function_sections:
+        # helpers may call each other (and the ultrasonic helpers) before their definitions
+        parts.append("\n".join(prototypes) + "\n\n")
         parts.append("".join(function_sections))
     if ultrasonic_sections:
         parts.append("".join(ultrasonic_sections))
